@@ -18,7 +18,8 @@ converter `parse` selects, `set_default` over default kinds):
           a digit, random ints and floats (as text and as values), None, bools;  Option.parse /
           Argument.parse dispatch for valid flag words
   rt      text form round trips (int, bool through the model; float only through Python)
-  engine  the contracts assumed of CPython: str.isalpha on the 63 name characters, float(repr(x)) == x
+  engine  the contracts assumed of CPython: str.isalpha on the 63 name characters, float(repr(x)) == x; both are
+          hypotheses of theorems and are decided by the model on what the interpreter answers (c07.alpha_ok, c07.float_rt)
 
 The oracle is the property statement written directly in Python over the *documented* bit layout.
 """
@@ -42,8 +43,10 @@ LEVEL_TEXT = ("Proved for ALL natural-number flag words (not only the 13 defined
               "are about definitions regenerated from the source on each run; the constructor model around them is "
               "compared exhaustively with the real classes.")
 LEVEL_NOTE = ("Trusted: Lean kernel + propext/Quot.sound/Classical.choice, py2lean, the hand-written constructor / "
-              "regex / int() models (validated by the exhaustive correspondence), CPython's str.isalpha on ASCII and "
-              "float()/repr round trip (parameters of the theorems, sampled).")
+              "regex / int() models (validated by the exhaustive correspondence). CPython's str.isalpha on ASCII and the "
+              "float()/repr round trip are parameters of the theorems; their hypotheses (AlphaOK; float(repr(x)) == x, "
+              "repr(x) != 'null') are decided by the model (alphaTableOK on the table of all 63 characters, floatRtB on "
+              "every generated float; theorems alpha_table_decides, float_rt_decides) and compared with true on every run.")
 LEAN_MODULES = ["Clikit.Props.C07"]
 REQUIRED_THEOREMS = ["Clikit.Props.C07." + n for n in (
     "flag_constants_disjoint", "option_ok_iff", "option_raises_only_valueError", "argument_ok_iff", "argument_raises_only_valueError",
@@ -51,7 +54,8 @@ REQUIRED_THEOREMS = ["Clikit.Props.C07." + n for n in (
     "option_flags_exact", "option_normal_form", "argument_flags_exact", "argument_normal_form",
     "wf_spelled_out", "names_wf_iff", "alias_wf_iff",
     "conv_typed", "conv_none_iff", "parse_typed_by_declared_type", "argument_parse_typed_by_declared_type",
-    "parse_int_repr", "parse_int_text", "parse_bool_text", "parse_float_repr")]
+    "parse_int_repr", "parse_int_text", "parse_bool_text", "parse_float_repr",
+    "alpha_table_decides", "alpha_table_ok", "ctor_alpha_irrelevant_decided", "float_rt_decides", "parse_float_repr_decided")]
 RULE = ("exhaustive part: every Option flag word 0..8191 (11 defined + 2 undefined bits) x short name given/absent x default "
         "none/scalar/list; every Argument flag word 0..2047 x default kinds; every name over {a,Z,1,-,_,' ','\\n','e-acute'} "
         "up to length 3 (quick) / 5 (thorough) with '', '-', '--' prefix x 6 name positions; sampled part: fixed boundary "
@@ -70,9 +74,12 @@ TRUSTED_BASE = [
 ]
 ASSUMPTIONS = [
     "flag words are non-negative ints (negative ints and bools as flags are outside the model)",
-    "CPython str.isalpha restricted to [a-zA-Z0-9-] is exactly the ASCII letters (checked on all 63 characters each run); "
-    "the theorems hold for every isalpha with that property",
-    "float(): a parameter of the model; float(repr(x)) == x and repr(x) != 'null' are CPython guarantees, sampled",
+    "CPython str.isalpha restricted to [a-zA-Z0-9-] is exactly the ASCII letters: hypothesis AlphaOK of the theorems, "
+    "decided by the model on the table of all 63 characters each run (c07.alpha_ok == true is part of the "
+    "correspondence; also stated by the oracle); the theorems hold for every isalpha with that property",
+    "float(): a parameter of the model; float(repr(x)) == x and repr(x) != 'null' (hypotheses of parse_float_repr) are "
+    "CPython guarantees, decided by the model on every generated float (c07.float_rt == true; exact tokens = float.hex) "
+    "- checked on the sample, not for all floats",
     "int() is modelled for ASCII text (ws* [+-]? digit (_? digit)* ws*); non-ASCII decimal digits / Unicode spaces and "
     "sys.int_max_str_digits (4300 digits) are outside the model and the generators",
     "numeric cross conversions int(float) / float(int) belong to the float engine: parse_int(float('inf')) and "
@@ -130,6 +137,27 @@ def _kind_of(v):
 
 def _exc(e):
     return type(e).__name__
+
+
+def _alpha_table():
+    """what the running interpreter's str.isalpha answers on [a-zA-Z0-9-], as [code point, answer] rows"""
+    return [[ord(c), c.isalpha()] for c in NAME_CHARS]
+
+
+def _ftok(x):
+    """an exact token of a float: equal tokens <=> the same float (all NaNs identified, -0.0 != 0.0)"""
+    return "nan" if math.isnan(x) else x.hex()
+
+
+def _float_rt(text):
+    """x = float(text): its token, repr(x), and the token of float(repr(x)) (None = ValueError)"""
+    x = float(text)
+    r = repr(x)
+    try:
+        back = _ftok(float(r))
+    except ValueError:
+        back = None
+    return {"x": _ftok(x), "repr": r, "back": back}
 
 
 # ------------------------------------------------------------------------------------------------ generation
@@ -209,6 +237,8 @@ def generate(tier, rng):
     # engine contracts first (cheap)
     for c in NAME_CHARS + "_ \né":
         yield {"k": "engine", "what": "isalpha", "c": c}
+    # the whole table at once: the model decides the hypothesis AlphaOK of the constructor theorems on it
+    yield {"k": "engine", "what": "isalpha_table"}
     # ---- exhaustive flag words
     for f in range(OPT_WORDS):
         for short in (False, True):
@@ -443,10 +473,13 @@ def run_impl(case):
     if k == "engine":
         if case["what"] == "isalpha":
             return {"isalpha": case["c"].isalpha()}
+        if case["what"] == "isalpha_table":
+            return {"table": _alpha_table()}
         x = float(case["x"])
         r = repr(x)
         y = float(r)
-        return {"rt": (y == x or (math.isnan(x) and math.isnan(y))), "null": r == "null", "same_text": r == case["x"]}
+        return {"rt": (y == x or (math.isnan(x) and math.isnan(y))), "null": r == "null", "same_text": r == case["x"],
+                "engine": _float_rt(case["x"])}
     if k == "consts":
         out = {}
         for n, v in O.items():
@@ -520,6 +553,12 @@ def model_requests(case):
                  "eng": _eng(case["value"])},
                 {"m": "c07.conv", "type": case["type"], "nullable": case["nullable"], "value": text,
                  "eng": _eng(text)}]
+    if k == "engine" and case["what"] == "isalpha_table":
+        # hypothesis AlphaOK (Props.C07.alpha_table_decides), decided by the model on CPython's answers
+        return [{"m": "c07.alpha_ok", "table": _alpha_table()}]
+    if k == "engine" and case["what"] == "float_rt":
+        # hypotheses of parse_float_repr (Props.C07.float_rt_decides), decided by the model on CPython's answers
+        return [dict(_float_rt(case["x"]), m="c07.float_rt")]
     return []
 
 
@@ -548,6 +587,10 @@ def model_obs(case, answers):
         if not answers:
             return {}
         return {"text": answers[0], "back": answers[1]}
+    if k == "engine" and case["what"] == "isalpha_table":
+        return {"alpha_ok": answers[0]["alpha_ok"], "rows": answers[0]["rows"], "table": _alpha_table()}
+    if k == "engine" and case["what"] == "float_rt":
+        return {"rt_ok": answers[0]["rt_ok"], "engine": _float_rt(case["x"])}
     return {}
 
 
@@ -567,6 +610,11 @@ def impl_view(case, obs):
         if type(_dec(case["value"])) is float:
             return {}
         return {"text": obs["text"], "back": obs["back"]}
+    if k == "engine" and case["what"] == "isalpha_table":
+        # the model must decide `true` on the table the worker's interpreter produced (63 rows)
+        return {"alpha_ok": True, "rows": len(NAME_CHARS), "table": obs["table"]}
+    if k == "engine" and case["what"] == "float_rt":
+        return {"rt_ok": True, "engine": obs["engine"]}
     return {}
 
 
@@ -873,6 +921,11 @@ def oracle(case, obs):
         if case["what"] == "isalpha":
             if obs["isalpha"] != (case["c"] in ASCII_LETTERS) and case["c"] in NAME_CHARS:
                 return "ASSUMPTION broken: str.isalpha(%r) = %s" % (case["c"], obs["isalpha"])
+            return None
+        if case["what"] == "isalpha_table":
+            for cp, ans in obs["table"]:
+                if ans != (chr(cp) in ASCII_LETTERS):
+                    return "ASSUMPTION broken: str.isalpha(%r) = %s" % (chr(cp), ans)
             return None
         if not obs["rt"] or obs["null"]:
             return "ASSUMPTION broken: float(repr(x)) != x for x = %s" % case["x"]
